@@ -9,6 +9,11 @@ Domain : recursive patterns (scalars, regex, lists, sets, dicts; depth <= 3) x p
          One scalar in four (every depth, top level of a parameter included) is a string over an alphabet with backslash, tab,
          newline, both quote characters and non-ASCII characters; the case holds the VALUE, case["style"] chooses how the
          statement SPELLS it (quote character, escape sequences); payloads include the un-decoded spelling as non-matching control.
+         One parameter case in six carries VERY MANY (40-324) further parameters / list items / set members / dict entries the
+         statement does not mention, on one level or spread over several nesting levels (case["bulk"], a compact description that
+         prop() expands).  Form "ref_rebind": ONE `match $ref.Finished()` / `.Started()` statement visited 2-3 times (helper flow
+         awaited for one reference after the other, a loop that re-assigns $ref, helper instances side by side) while $ref refers to
+         objects of different kinds (four action types, two flows) - judged at every visit against the events of all objects.
 Oracle : an independent recursive matcher written from the property text / the language reference.
          Verdict is compared with "does `Hit` appear in the outgoing events".
 """
@@ -38,9 +43,21 @@ RULE = (
     "($ref.Finished() of action/flow instances), plus the table regex pool x value pool (all witnesses/non-witnesses, '', numbers) in three shapes "
     "(bare, inside a longer list, inside a larger dict), plus the string table: 15 pool strings x 6 spelling styles x (the value, <=5 spelling near-misses) in four shapes (whole parameter, inside a longer list, "
     "a larger dict, a larger set), statement forms rotating (literal / variable + loop with capture / action start arguments). In half of all generated cases (every form) and in a slice of the enumerated ones the flow executes `priority p`, "
-    "p in {0.0, 0.1, 0.5, 1.0}, directly before the judged match statement (single flow, no competitor: the priority only ranks competing matches). Non-trivial = pattern nesting depth >= 2, or a payload obtained by a "
+    "p in {0.0, 0.1, 0.5, 1.0}, directly before the judged match statement (single flow, no competitor: the priority only ranks competing matches). MANY EXTRAS: one generated parameter case in six (drawn first; these cases prefer container patterns of depth 1-3; every statement form) carries case.bulk = "
+    "{params: n further unmentioned parameters u0.., fill: [[parameter, path, n] x 0-3] n further elements for the container at that position of the received value (list items in front / behind / spread between "
+    "the present ones, set members, dict entries; any nesting level, deepest first), kind str|int, pos}: 40-324 further parameters/elements in total (one of 40 60 70 80 95 100 110 128 150 200 256 300, plus 0-24), "
+    "split by drawn weights; the oracle judges the EXPANDED payload, so matching payloads stay matches and the drop/alter/swap controls stay non-matches (labels many-extras, extras-40-69 / 70-94 / 95-199 / 200+, "
+    "extras-as-parameters, extras-in-containers, extras-in-nested-container, extras-on-several-levels); plus the many-extras table: n in {60,80,95,100,128,150,200,300} x (unmentioned parameters only, list, set, dict, "
+    "nested dict with list and set and parameters) x (matching payload, control) with forms and priorities rotating. REBOUND REFERENCE (form ref_rebind, one generated case in six): 2-5 objects $o0.. started by main, each an "
+    "UtteranceBotAction / GestureBotAction / PostureBotAction() / XAction instance or an instance of flow f / flow g; ONE statement `match $ref.Finished()` (or `.Started()`, actions only) is visited for 2-3 distinct objects in "
+    "a drawn order - variant helper (`flow wait_done $ref` awaited for one object after the other), loop (`while`: `$ref = $o<r>` chosen by if/elif/else on the counter, then the statement), parallel (one helper instance "
+    "per object, all waiting at once); in half of the cases the kinds of two consecutive referenced objects are forced to differ; schedule = either, per visit, 0-2 distractors (event of an unreferenced object, "
+    "event of the right type with an unknown / None action_uid or Go of no instance) then the event of the awaited object, or a random permutation of the events of ALL objects (awaited ones too early / in the wrong order) "
+    "with distractors; after every event the set of `Hit(k=visit)` markers must be exactly what a two-line model says (sequential: the visit waiting now and only on its object's event; parallel: the visit "
+    "waiting for that object) (labels ref-rebind, ref-rebind-helper/-loop/-parallel, ref-type-change / ref-same-type, ref-action-then-flow ..., ref-visits-advanced-N); plus the reference table: every ordered pair of "
+    "object kinds (A == B included) x variant x Finished (Started for action pairs) with another instance of A and unknown/None-uid events as distractors. Non-trivial = pattern nesting depth >= 2, or a payload obtained by a "
     "drop/swap/retype mutation (fewer elements, reordered, different container), or a pattern with a string leaf whose source spelling differs from its value (labels escaped-string, "
-    "escaped-string-top-level / -nested-only, single-quoted / double-quoted); distinct by (pattern, payload)."
+    "escaped-string-top-level / -nested-only, single-quoted / double-quoted), or a rebound-reference case in which the statement advanced at >= 2 visits; distinct by (pattern, payload) / the whole case."
 )
 ASSUMPTIONS = [
     "a string literal in a statement denotes the text obtained by the Python string-literal rules (\\t TAB, \\n newline, \\\\ one backslash, \\\" and \\' the quote, \\uXXXX the code point, either quote "
@@ -52,6 +69,11 @@ ASSUMPTIONS = [
     "a regex is 'found in the value' in the sense of re.search on str(value), whatever the length of the span that is found (an empty span is a find)",
     "the flow priority (allowed range [0.0, 1.0], 0.0 included) only ranks competing matches; the statement has no priority clause, so a lone waiting match must "
     "advance on a matching event whatever priority its flow has set (the reference says the score 'is multiplied by' the priority; it does not say that 0.0 switches a flow off)",
+    "'parameters the statement does not mention never prevent a match' holds for any NUMBER of them; the generator stops at about 330 further parameters / container elements per event "
+    "(on the unchanged tree the interpreter's score 0.9^n underflows to 0.0 near n = 7100 and the statement then stops matching - observed with a hand-made case, reported, not generated)",
+    "a reference-based statement is judged only against events that arrive while it is waiting: an object that finished before the statement was reached (again) is not waited for successfully, "
+    "and every object receives its Finished / Started event at most once",
+    "an action event whose action_uid is None or unknown belongs to no referenced instance (as in the single-visit instance cases)",
 ]
 
 REGEX = [
@@ -427,18 +449,149 @@ def mutate(draw, V, style=None):
     return _set(V, path, [sub]), "retype"
 
 
+# ---------------------------------------------------------------------------------------------
+# very many extras: the case holds a compact description (counts), prop() expands it deterministically
+
+
+def _is_container(x):
+    return is_set(x) or isinstance(x, list) or (isinstance(x, dict) and not is_rx(x))
+
+
+def _fillers(n, kind):
+    return [("f%d" % i) if kind == "str" else 1000 + i for i in range(n)]
+
+
+def _fill(sub, n, kind, pos):
+    """Add n further elements to the received container `sub`: list items in front of / behind / spread between the
+    present ones, further set members, further dict entries."""
+    if is_set(sub):
+        return {"__set__": _uniq(list(sub["__set__"]) + _fillers(n, kind))}
+    if isinstance(sub, list):
+        fill = _fillers(n, kind)
+        if pos == "front":
+            return fill + list(sub)
+        if pos == "back":
+            return list(sub) + fill
+        slots = len(sub) + 1  # spread: the i-th further item goes into slot i mod (len+1)
+        out = []
+        for slot in range(slots):
+            out += fill[slot::slots]
+            if slot < len(sub):
+                out.append(sub[slot])
+        return out
+    d = dict(sub)
+    for i in range(n):
+        d.setdefault("e%d" % i, i if kind == "int" else "f%d" % i)
+    return d
+
+
+def expand_bulk(pay, extra, bulk):
+    """(payload, unmentioned parameters) of the event after the bulk description has been applied:
+    bulk = {"params": number of further unmentioned parameters u0..u<n-1>, "fill": [[parameter, path, n], ...] further
+    elements for the container at `path` of the received value of `parameter`, "kind": "str"|"int", "pos": "front"|"back"|"spread"}."""
+    if not bulk:
+        return pay, extra
+    pay = dict(pay)
+    # deepest containers first: filling a list shifts the positions of its own items only
+    for name, path, n in sorted(bulk.get("fill", []), key=lambda f: -len(f[1])):
+        if name not in pay:
+            continue
+        path = tuple((k, i) for k, i in path)
+        sub = _get(pay[name], path)
+        pay[name] = _set(pay[name], path, _fill(sub, n, bulk.get("kind", "str"), bulk.get("pos", "spread")))
+    extra = dict(extra)
+    for i in range(bulk.get("params", 0)):
+        extra.setdefault("u%d" % i, i)
+    return pay, extra
+
+
+def bulk_total(bulk):
+    return (bulk.get("params", 0) + sum(n for _, _, n in bulk.get("fill", []))) if bulk else 0
+
+
+@st.composite
+def _bulk(draw, pay):
+    """100-odd further parameters / elements in total, split over the unmentioned parameters of the event and up to three
+    containers of the received values (any nesting level)."""
+    # (Hypothesis favours the first element / the smallest integer: the favoured total is one of the large ones)
+    total = draw(st.sampled_from([128, 100, 150, 95, 200, 300, 80, 110, 60, 256, 40, 70])) + draw(st.integers(0, 24))
+    targets = [[name, [list(step) for step in path]] for name, V in pay.items() for path in _paths(V) if _is_container(_get(V, path))]
+    targets.sort(key=lambda t: -len(t[1]))  # the favoured (first) targets are the deepest containers
+    chosen = []
+    if targets:
+        idx = draw(st.lists(st.integers(0, len(targets) - 1), min_size=1, max_size=3, unique=True))
+        chosen = [targets[i] for i in idx]
+    with_params = not chosen or draw(st.booleans())
+    weights = [draw(st.integers(1, 4)) for _ in range(len(chosen) + int(with_params))]
+    shares = [max(1, round(total * w / sum(weights))) for w in weights]
+    bulk = {"params": shares[-1] if with_params else 0, "fill": [[name, path, n] for (name, path), n in zip(chosen, shares)],
+            "kind": draw(st.sampled_from(["str", "int"])), "pos": draw(st.sampled_from(["front", "back", "spread", "spread"]))}
+    return bulk
+
+
+# ---------------------------------------------------------------------------------------------
+# the same reference-based match statement reached again while its reference variable refers to another object
+
+OBJ_KINDS = {
+    # kind: (start statement, event name prefix or None for a flow)
+    "utt": ('start UtteranceBotAction(script="same") as $o{i}', "UtteranceBotAction"),
+    "gest": ('start GestureBotAction(gesture="wave") as $o{i}', "GestureBotAction"),
+    "post": ("start PostureBotAction() as $o{i}", "PostureBotAction"),
+    "xact": ("start XAction(p=2) as $o{i}", "XAction"),
+    "flow_f": ("start f {i} as $o{i}", None),
+    "flow_g": ("start g {i} as $o{i}", None),
+}
+ACTION_KINDS = ["utt", "gest", "post", "xact"]
+REBIND_VARIANTS = ["helper", "loop", "parallel"]
+
+
+@st.composite
+def _rebind_case(draw):
+    evname = draw(st.sampled_from(["Finished", "Finished", "Started"]))
+    pool = ACTION_KINDS if evname == "Started" else list(OBJ_KINDS)
+    n = draw(st.integers(2, 5))
+    objs = [draw(st.sampled_from(pool)) for _ in range(n)]
+    refs = draw(st.lists(st.integers(0, n - 1), min_size=2, max_size=min(3, n), unique=True))
+    if draw(st.booleans()) and len({objs[r] for r in refs}) == 1:
+        # make sure half of the cases change the kind of the referenced object between two visits of the statement
+        objs[refs[1]] = draw(st.sampled_from([k for k in pool if k != objs[refs[0]]]))
+    sched = []
+    if draw(st.booleans()):
+        # constructive schedule: distractors (events of other objects / of no known instance), then the event of the awaited object
+        others = [i for i in range(n) if i not in refs]
+        for r in refs:
+            for _ in range(draw(st.integers(0, 2))):
+                d = draw(st.sampled_from(["unknown", "none", "other"]))
+                if d == "other" and others:
+                    sched.append({"obj": others.pop(draw(st.integers(0, len(others) - 1)))})
+                elif d != "other":
+                    sched.append({"obj": draw(st.sampled_from(refs)), "uid": d})
+            sched.append({"obj": r})
+    else:
+        for i in draw(st.permutations(list(range(n)))):
+            if draw(st.integers(0, 3)) == 0:
+                sched.append({"obj": i, "uid": draw(st.sampled_from(["unknown", "none"]))})
+            sched.append({"obj": i})
+    return {"form": "ref_rebind", "variant": draw(st.sampled_from(REBIND_VARIANTS)), "event": evname, "objects": objs, "refs": refs, "schedule": sched, "priority": draw(priority)}
+
+
 @st.composite
 def _case(draw):
-    form = draw(st.sampled_from(["param"] * 8 + ["action_instance", "flow_instance"]))
+    form = draw(st.sampled_from(["param"] * 8 + ["action_instance", "flow_instance", "ref_rebind", "ref_rebind"]))
+    if form == "ref_rebind":
+        return draw(_rebind_case())
     if form != "param":
         target = draw(st.sampled_from([0, 1, 2, "none", "missing", "unknown"]))
         return {"form": form, "which": draw(st.integers(0, 2)), "target": target, "n": 3, "with_args": draw(st.booleans()), "event": draw(st.sampled_from(["Finished", "Started"])), "priority": draw(priority)}
     via_action = draw(st.integers(0, 5)) == 0  # the pattern is matched against the START ARGUMENTS of an action instance
     nparams = draw(st.integers(1, 2))
     style = draw(style_st)  # how the statement spells its strings (quote character, escape sequences)
+    # one case in six (drawn; Hypothesis favours the small values, the observed share is the label many-extras): the event carries
+    # VERY MANY (40-324) further parameters / container elements the statement does not mention; these cases prefer container patterns
+    many = draw(st.integers(0, 5)) == 5
     pats, pay, kinds = {}, {}, []
     for name in ["p", "q"][:nparams]:
-        P = draw(pattern(draw(st.sampled_from([0, 1, 2, 2, 3, 3]))))
+        P = draw(pattern(draw(st.sampled_from([2, 1, 2, 3, 3] if many else [0, 1, 2, 2, 3, 3]))))
         mode = draw(st.integers(0, 9))
         if mode == 0:
             V = draw(pattern(2).map(witness))  # independent payload
@@ -458,6 +611,8 @@ def _case(draw):
             pay[name] = V
     extra = draw(st.dictionaries(st.sampled_from(["x", "y"]), scalar, max_size=2))
     case = {"form": "param", "pattern": pats, "payload": pay, "extra": extra, "mut": kinds, "priority": draw(priority), "style": style}
+    if many:
+        case["bulk"] = draw(_bulk(pay))
     if via_action:
         case["form"] = "action_args"
         return case
@@ -542,6 +697,38 @@ def enumerate_cases(tier):
         for target in [0, 1, "none"]:
             yield {"form": "action_instance", "which": 1, "target": target, "n": 3, "with_args": True, "event": "Finished", "priority": pr}
             yield {"form": "flow_instance", "which": 1, "target": target if isinstance(target, int) else 2, "n": 3, "with_args": True, "event": "Finished", "priority": pr}
+    # many-extras table: a payload that satisfies the statement (and a control that does not) with n further unmentioned parameters /
+    # list items / set members / dict entries, on one level or spread over all of them; statement forms and priorities rotate
+    nested_p = {"k1": "a", "k2": {"__set__": [2]}, "k3": [2, "a"]}
+    shapes = [
+        ("go", "go", "stop", lambda n: {"params": n, "fill": []}),
+        (["x"], ["x"], ["y"], lambda n: {"params": 0, "fill": [["p", [], n]]}),
+        ({"__set__": [2]}, {"__set__": [2]}, {"__set__": [3]}, lambda n: {"params": 0, "fill": [["p", [], n]]}),
+        ({"k1": 2}, {"k1": 2}, {"k1": 3}, lambda n: {"params": 0, "fill": [["p", [], n]]}),
+        (nested_p, nested_p, dict(nested_p, k3=["a", 2]), lambda n: {"params": n - 3 * (n // 4), "fill": [["p", [], n // 4], ["p", [["d", "k2"]], n // 4], ["p", [["d", "k3"]], n // 4]]}),
+    ]
+    m = 0
+    for n in (60, 80, 95, 100, 128, 150, 200, 300):
+        for P, V, C, mk in shapes:
+            for payload in (V, C):
+                m += 1
+                bulk = dict(mk(n), kind=("str", "int")[m % 2], pos=("spread", "front", "back")[m % 3])
+                base = {"pattern": {"p": P}, "payload": {"p": payload}, "extra": {}, "mut": ["many-extras-table"], "priority": ([None, None] + PRIORITIES)[m % 6], "bulk": bulk}
+                yield dict(base, form="param")
+                if m % 3 == 0:
+                    yield dict(base, form="param", via_var=True, second={"payload": {"p": V}, "extra": {}})
+                elif m % 3 == 1:
+                    yield dict(base, form="action_args")
+    # reference table: the one statement `match $ref.Finished()` / `.Started()` visited for an object of kind A, then for an object of kind B
+    # (every ordered pair, A == B included: another instance), in every variant; events of other instances in between must not advance it
+    m = 0
+    for evname, pool in (("Finished", list(OBJ_KINDS)), ("Started", ACTION_KINDS)):
+        for a in pool:
+            for b in pool:
+                for variant in REBIND_VARIANTS:
+                    m += 1
+                    yield {"form": "ref_rebind", "variant": variant, "event": evname, "objects": [a, b, a], "refs": [0, 1], "priority": ([None, None] + PRIORITIES)[m % 6],
+                           "schedule": [{"obj": 0, "uid": "unknown"}, {"obj": 2}, {"obj": 0}, {"obj": 1, "uid": "none"}, {"obj": 1}]}
     for form in ("action_instance", "flow_instance"):
         for which in range(3):
             for target in [0, 1, 2, "none", "missing", "unknown"]:
@@ -619,10 +806,120 @@ def _string_labels(case):
     return out
 
 
+def _short(text, limit=700):
+    return text if len(text) <= limit else text[: limit // 2] + f" ...[{len(text) - limit} characters]... " + text[-limit // 2 :]
+
+
+def _bulk_labels(case):
+    """Share of the many-extras dimension: how many further parameters / elements in total, where they sit."""
+    bulk = case.get("bulk")
+    if not bulk:
+        return []
+    total = bulk_total(bulk)
+    out = ["many-extras", "extras-" + ("40-69" if total < 70 else "70-94" if total < 95 else "95-199" if total < 200 else "200+")]
+    if bulk.get("params"):
+        out.append("extras-as-parameters")
+    depths = sorted({len(path) for _, path, _ in bulk.get("fill", [])})
+    if depths:
+        out.append("extras-in-containers")
+    if any(d >= 1 for d in depths):
+        out.append("extras-in-nested-container")
+    if len(depths) + bool(bulk.get("params")) >= 2:
+        out.append("extras-on-several-levels")
+    return out
+
+
+def _bulk_note(case):
+    bulk = case.get("bulk")
+    if not bulk:
+        return ""
+    return f" [the event carries {bulk_total(bulk)} further unmentioned parameters / container elements: {bulk}]"
+
+
+def _rebind_prop(case):
+    """One `match $ref.<Event>()` statement is reached several times (helper flow awaited one reference after the other / loop
+    that re-assigns $ref / several instances of the helper flow side by side); at every visit it must advance on the event of
+    the object $ref refers to THEN, and on no other event."""
+    objs, refs, evname, variant = case["objects"], case["refs"], case.get("event", "Finished"), case["variant"]
+    prio, prio_labels = _prio(case, "    " if variant == "loop" else "  ")
+    lines = []
+    if "flow_f" in objs:
+        lines += ["flow f $i", "  match Go(i=$i)", ""]
+    if "flow_g" in objs:
+        lines += ["flow g $i", "  match Go(i=$i)", ""]
+    starts = ["  " + OBJ_KINDS[k][0].format(i=i) for i, k in enumerate(objs)]
+    if variant == "helper":
+        lines += ["flow wait_done $ref", prio.rstrip("\n") or None, f"  match $ref.{evname}()", "", "flow main"] + starts
+        for k, r in enumerate(refs):
+            lines += [f"  await wait_done $o{r}", f"  send Hit(k={k})"]
+    elif variant == "parallel":
+        lines += ["flow wait_done $ref $k", prio.rstrip("\n") or None, f"  match $ref.{evname}()", "  send Hit(k=$k)", "", "flow main"] + starts
+        for k, r in enumerate(refs):
+            lines.append(f"  start wait_done $o{r} {k}")
+    else:
+        lines += ["flow main"] + starts + ["  $i = 0", f"  while $i < {len(refs)}"]
+        for k, r in enumerate(refs):
+            lines += ["    else" if k == len(refs) - 1 else f"    {'if' if k == 0 else 'elif'} $i == {k}", f"      $ref = $o{r}"]
+        lines += [prio.rstrip("\n") or None, f"    match $ref.{evname}()", "    send Hit(k=$i)", "    $i = $i + 1"]
+    lines.append("  match Never()")
+    program = "\n".join(l for l in lines if l is not None) + "\n"
+    state = smh.init(program)
+    uids = {}
+    action_starts = [e for e in state.outgoing_events if e["type"].startswith("Start") and "action_uid" in e]
+    expected_starts = [(i, "Start" + OBJ_KINDS[k][1]) for i, k in enumerate(objs) if OBJ_KINDS[k][1]]
+    if [e["type"] for e in action_starts] != [t for _, t in expected_starts]:
+        raise Violation("setup", f"expected the start events {[t for _, t in expected_starts]}, got {smh.types(state.outgoing_events)}\n{program}")
+    for (i, _), e in zip(expected_starts, action_starts):
+        uids[i] = e["action_uid"]
+    if "Hit" in smh.types(state.outgoing_events):
+        raise Violation("reference-rebound-verdict", f"Hit emitted before any event was received\n{program}")
+    waiting = {r: k for k, r in enumerate(refs)}  # object -> visit number of the statement that waits for it
+    nxt = 0  # sequential variants: the visit that is waiting now
+    story, advanced, withheld = [], 0, 0
+    for item in case["schedule"]:
+        j, fake = item["obj"], item.get("uid")
+        prefix = OBJ_KINDS[objs[j]][1]
+        if prefix is None:
+            event = smh.ev("Go", i=j if fake is None else 100 + j)
+        else:
+            event = smh.ev(prefix + evname, action_uid=uids[j] if fake is None else None if fake == "none" else "00000000-0000-0000-0000-000000000000")
+            if evname == "Finished":
+                event["is_success"] = True
+        expect = []
+        if fake is None and j in waiting and (variant == "parallel" or waiting[j] == nxt):
+            expect = [waiting.pop(j)]
+            nxt += 1
+        out = smh.feed(state, event)
+        got = [e.get("k") for e in out if e["type"] == "Hit"]
+        what = f"{'the ' + evname + ' event' if prefix else 'the end'} of object $o{j} ({objs[j]})" if fake is None else f"a {prefix + evname if prefix else 'Go'} event of no known instance ({fake})"
+        story.append(f"{what} -> Hit{got}")
+        if got != expect:
+            now = "nothing" if variant != "parallel" and nxt - len(expect) >= len(refs) else (
+                f"$o{refs[nxt - len(expect)]} ({objs[refs[nxt - len(expect)]]}), visit {nxt - len(expect)} of the statement" if variant != "parallel" else f"{ {'$o%d' % o: v for o, v in sorted(list(waiting.items()) + [(j, e) for e in expect])} }")
+            raise Violation(
+                "reference-rebound-verdict",
+                f"{variant}: the one statement `match $ref.{evname}()` is visited for the references {['$o%d (%s)' % (r, objs[r]) for r in refs]}; waiting for {now}; on {what} the interpreter emitted Hit{got}, "
+                f"the rule says Hit{expect} (the statement advances exactly on the event of the instance $ref refers to at that visit). History: {'; '.join(story)}\n{program}",
+            )
+        advanced += len(expect)
+        withheld += not expect
+    kinds = [("flow" if OBJ_KINDS[objs[r]][1] is None else "action") for r in refs]
+    names = [OBJ_KINDS[objs[r]][1] or "flow:" + objs[r] for r in refs]
+    changes = [a != b for a, b in zip(names, names[1:])]
+    labels = ["ref-rebind", "ref-rebind-" + variant, "ref-" + evname.lower(), "ref-type-change" if any(changes) else "ref-same-type"]
+    labels += sorted({f"ref-{a}-then-{b}" for a, b in zip(kinds, kinds[1:])})
+    labels.append(f"ref-visits-advanced-{advanced}")
+    if withheld:
+        labels.append("ref-other-events-withheld")
+    return ok(nt=advanced >= 2, labels=labels + prio_labels, view={"program": program, "history": story})
+
+
 def _action_args_case(case):
     """`match XAction(p=P).Finished()` refers to the action instances whose start arguments match P."""
-    pats, pay = case["pattern"], dict(case["payload"])
-    pay.update(case["extra"])
+    pats = case["pattern"]
+    pay, extra = expand_bulk(case["payload"], case["extra"], case.get("bulk"))
+    pay = dict(pay)
+    pay.update(extra)
     style = case.get("style")
     try:
         expected = all(k in pay and ref_match(P, pay[k]) for k, P in pats.items())
@@ -646,20 +943,25 @@ def _action_args_case(case):
     if got != expected:
         raise Violation(
             "action-arguments-verdict",
-            f"action started as XAction({start_args}); {'`' + prio.strip() + '` then ' if prio else ''}`match XAction({pat_args}).Finished()` {'matched' if got else 'did not match'} its Finished event, rule says {'match' if expected else 'no match'}",
+            f"action started as XAction({_short(start_args)}); {'`' + prio.strip() + '` then ' if prio else ''}`match XAction({pat_args}).Finished()` {'matched' if got else 'did not match'} its Finished event, rule says {'match' if expected else 'no match'}"
+            + _bulk_note(case),
         )
     d = max(depth(P) for P in pats.values())
     zw = ["zero-width-regex"] if any(has_zw(P) for P in pats.values()) else []
     zw += _string_labels(case)
-    return ok(nt=d >= 1 or "escaped-string" in zw, labels=["action-args", "match" if expected else "no-match", f"depth{d}"] + zw + prio_labels, view={"start": f"XAction({start_args})", "statement": f"match XAction({pat_args}).Finished()", "matched": got})
+    zw += _bulk_labels(case)
+    return ok(nt=d >= 1 or "escaped-string" in zw, labels=["action-args", "match" if expected else "no-match", f"depth{d}"] + zw + prio_labels, view={"start": f"XAction({_short(start_args)})", "statement": f"match XAction({pat_args}).Finished()", "matched": got})
 
 
 def prop(case):
     if case["form"] == "action_args":
         return _action_args_case(case)
+    if case["form"] == "ref_rebind":
+        return _rebind_prop(case)
     if case["form"] != "param":
         return _instance_case(case)
-    pats, pay = case["pattern"], case["payload"]
+    pats = case["pattern"]
+    pay, extra = expand_bulk(case["payload"], case["extra"], case.get("bulk"))
     style = case.get("style")
     args = ", ".join(f"{k}={lit(v, style)}" for k, v in pats.items())
     second = case.get("second")
@@ -685,14 +987,14 @@ def prop(case):
     event = {"type": "Ev"}
     for k, v in pay.items():
         event[k] = smh.to_py(v)
-    for k, v in case["extra"].items():
+    for k, v in extra.items():
         event[k] = v
     out = smh.feed(state, event)
     got = "Hit" in smh.types(out)
     if got != expected:
         raise Violation(
             "match-verdict",
-            f"{desc} on event {event!r}: interpreter {'matched' if got else 'did not match'}, rule says {'match' if expected else 'no match'}",
+            f"{desc} on event {_short(repr(event))}: interpreter {'matched' if got else 'did not match'}, rule says {'match' if expected else 'no match'}" + _bulk_note(case),
         )
     if second is not None:
         event2 = {"type": "Ev"}
@@ -704,7 +1006,7 @@ def prop(case):
         if got2 != expected2:
             raise Violation(
                 "match-verdict-second-event",
-                f"{desc}: after a first event {event!r} ({'matched' if got else 'not matched'}), the same statement on event {event2!r}: interpreter {'matched' if got2 else 'did not match'}, rule says {'match' if expected2 else 'no match'}",
+                f"{desc}: after a first event {_short(repr(event))} ({'matched' if got else 'not matched'}), the same statement on event {event2!r}: interpreter {'matched' if got2 else 'did not match'}, rule says {'match' if expected2 else 'no match'}",
             )
     # a second, unrelated event must never advance the statement
     d = max(depth(P) for P in pats.values())
@@ -716,11 +1018,12 @@ def prop(case):
         labels.append("pattern-in-variable")
     if second is not None:
         labels.append("same-statement-second-event")
-    if case["extra"]:
+    if extra:
         labels.append("unmentioned-params")
+    labels += _bulk_labels(case)
     if any(has_zw(P) for P in pats.values()):
         labels.append("zero-width-regex")
     labels += prio_labels + slabels
-    view = {"statement": f"match Ev({args})", "event": repr(event), "matched": got}
+    view = {"statement": f"match Ev({args})", "event": _short(repr(event)), "matched": got}
     return ok(nt=nt, labels=labels, view=view)
 
